@@ -244,7 +244,10 @@ func (c *RetryClient) Disconnect(ctx context.Context) error {
 		}
 	}), "retryclient: disconnecting")
 	c.mu.Lock()
-	close(c.chTask)
+	if c.chTask != nil {
+		// The task goroutine is not started until the first SetClient.
+		close(c.chTask)
+	}
 	c.stopped = true
 	c.mu.Unlock()
 	return err
